@@ -382,6 +382,14 @@ impl ListenerRegistry {
         self.by_mid.get(mid).cloned()
     }
 
+    /// MID the given receiver registered for, if any.
+    fn mid_for_sender(&self, tx: &mpsc::Sender<(RtpPacket, SocketAddr)>) -> Option<&str> {
+        self.routes
+            .iter()
+            .find(|route| route.tx.same_channel(tx))
+            .and_then(|route| route.mid.as_deref())
+    }
+
     fn unique_by_pt(&self, pt: u8) -> Option<mpsc::Sender<(RtpPacket, SocketAddr)>> {
         let mut selected: Option<&mpsc::Sender<(RtpPacket, SocketAddr)>> = None;
 
@@ -1114,6 +1122,9 @@ impl PacketReceiver for RtpTransport {
                     bind_ssrc = selected.is_some();
                 }
 
+                // Was the receiver identified by the packet's own RID/MID?
+                let identified = selected.is_some();
+
                 if selected.is_none() {
                     selected = listeners.by_ssrc.get(&ssrc).cloned();
                     bind_ssrc = false;
@@ -1126,6 +1137,21 @@ impl PacketReceiver for RtpTransport {
 
                 if selected.is_none() {
                     selected = listeners.single_provisional();
+                    bind_ssrc = false;
+                }
+
+                // A packet whose MID names another media section must not fall
+                // through (by SSRC, payload type or provisional route) to a
+                // receiver that registered a different MID: drop it instead.
+                if !identified
+                    && let Some(tx) = selected.as_ref()
+                    && let Some(mid) = &mid_bytes
+                    && let Ok(mid_str) = std::str::from_utf8(mid)
+                    && !mid_str.is_empty()
+                    && let Some(route_mid) = listeners.mid_for_sender(tx)
+                    && route_mid != mid_str
+                {
+                    selected = None;
                     bind_ssrc = false;
                 }
 
